@@ -79,6 +79,7 @@ static LIVE_BYTES: AtomicUsize = AtomicUsize::new(0);
 static ALLOC_COUNT: AtomicUsize = AtomicUsize::new(0);
 static ALLOC_BYTES: AtomicUsize = AtomicUsize::new(0);
 static OFF_MODE: AtomicUsize = AtomicUsize::new(0);
+static RECYCLED: AtomicUsize = AtomicUsize::new(0);
 static PAGE_MODE: AtomicUsize = AtomicUsize::new(0);
 static FIXED_OFF: AtomicUsize = AtomicUsize::new(0);
 static NEXT_PAGE: AtomicUsize = AtomicUsize::new(0);
@@ -120,6 +121,7 @@ static mut NPG: [u8; PAGES] = [0; PAGES];
 /// block even when addresses are reused
 static mut GEN: [u32; PAGES] = [0; PAGES];
 static mut TOUCHED: [u32; PAGES] = [0; PAGES];
+static mut IS_TOUCHED: [u8; PAGES] = [0; PAGES];
 static mut ALT_STACK: [u8; 1 << 16] = [0; 1 << 16];
 
 /// Callback used by the fault handler to emit the violation record. It must be
@@ -168,6 +170,11 @@ fn digest(x: u64) {
 pub struct SimAlloc;
 
 unsafe fn touch(p: usize) {
+    // (a page whose quarantine was given back is handed out a second time in one execution)
+    if IS_TOUCHED[p] != 0 {
+        return;
+    }
+    IS_TOUCHED[p] = 1;
     let n = NTOUCHED.load(Relaxed);
     TOUCHED[n] = p as u32;
     NTOUCHED.store(n + 1, Relaxed);
@@ -219,6 +226,26 @@ unsafe impl GlobalAlloc for SimAlloc {
         let mut scanned = 0usize;
         loop {
             if scanned > 2 * PAGES {
+                // every page is live or quarantined (a very long run): give the quarantine
+                // back once - use-after-free of the blocks freed so far is no longer caught
+                // in this execution - and only then give up
+                if RECYCLED.load(Relaxed) == 0 {
+                    RECYCLED.store(1, Relaxed);
+                    let n = NTOUCHED.load(Relaxed);
+                    for i in 0..n {
+                        let q = TOUCHED[i] as usize;
+                        if STATE[q] == QUAR {
+                            STATE[q] = FREE;
+                            mprotect((BASE + q * PAGE) as *mut u8, PAGE, 3);
+                        }
+                    }
+                    for c in 0..NCLASS {
+                        FREE_LEN[c] = 0;
+                    }
+                    scanned = 0;
+                    p = 0;
+                    continue;
+                }
                 raw_write(2, b"HARNESS-ERROR arena exhausted\n");
                 _exit(EXIT_HARNESS);
             }
@@ -383,6 +410,10 @@ pub fn default_abort_signals() {
 pub fn set_reuse(on: bool) {
     REUSE_ON.store(on, Relaxed);
 }
+/// 1 if the quarantine had to be given back during this execution
+pub fn quarantine_recycled() -> usize {
+    RECYCLED.load(Relaxed)
+}
 pub fn reused_blocks() -> usize {
     REUSED.load(Relaxed)
 }
@@ -394,12 +425,14 @@ pub fn reset(layout_seed: u64, arena_on: bool) {
         }
     }
     REUSED.store(0, Relaxed);
+    RECYCLED.store(0, Relaxed);
     unsafe {
         let n = NTOUCHED.load(Relaxed);
         if n > 0 && READY.load(Relaxed) {
             mprotect(BASE as *mut u8, PAGES * PAGE, 3);
             for i in 0..n {
                 STATE[TOUCHED[i] as usize] = FREE;
+                IS_TOUCHED[TOUCHED[i] as usize] = 0;
             }
             NTOUCHED.store(0, Relaxed);
         }
@@ -477,7 +510,8 @@ pub fn block_state(addr: usize) -> BlockState {
     unsafe {
         match STATE[p] {
             HEAD | CONT => BlockState::Live,
-            QUAR => BlockState::Released,
+            // (a free page that once held a block: its quarantine was given back)
+            QUAR | FREE => BlockState::Released,
             _ => BlockState::Unknown,
         }
     }
